@@ -360,6 +360,13 @@ func init() {
 		return res
 	})
 
+	// the phone number metadata (a 200 kB protobuf decoded at init) is not encoded
+	for _, n := range []string{"Parse", "ParseAndKeepRawInput", "ParseToNumber"} {
+		reg("github.com/nyaruka/phonenumbers."+n, func(fr *frame, args []value) value {
+			panic(unsupported{"github.com/nyaruka/phonenumbers: phone number metadata is outside the encoding"})
+		})
+	}
+
 	// ---- environment stubs (class B) ----------------------------------
 	reg("github.com/nyaruka/gocommon/uuids.NewV4", func(fr *frame, args []value) value {
 		fr.i.uuidSeq++
